@@ -94,6 +94,7 @@ func runC03(c *kit.Ctx) {
 	}
 	hm := newHashModel(c, m)
 	c03Propagate(c, m, hm, r3, r6)
+	c03EntryShape(c, m, hm, r6)
 	c03Helper(c, m, hm, r4)
 	c03NewEdge(c, m, hm, r5)
 	c03Ownership(c, m, hm, r7)
@@ -448,9 +449,22 @@ func c03Helper(c *kit.Ctx, m *storeModel, hm *hashModel, r4 *kit.Rule) {
 		sel, ok := ast.Unparen(ix.Index).(*ast.SelectorExpr)
 		return ok && sel.Sel.Name == "ID" && kit.ObjOf(info, sel.X) == e
 	}
+	// `_, ok := cache[e.ID]`: ok answers "already in the cache"
+	presentVars := map[types.Object]bool{}
+	ast.Inspect(f.Body, func(n ast.Node) bool {
+		if as, ok := n.(*ast.AssignStmt); ok && len(as.Lhs) == 2 && len(as.Rhs) == 1 && isCacheAt(as.Rhs[0]) {
+			if o := kit.ObjOf(info, as.Lhs[1]); o != nil {
+				presentVars[o] = true
+			}
+		}
+		return true
+	})
 	st := &kit.Std{F: f}
 	// atoms: presence in cache, sentinel test on e.Up
 	st.Eval.Atom = func(x ast.Expr) (string, bool, bool) {
+		if o := kit.ObjOf(info, x); o != nil && presentVars[o] {
+			return "present", false, true
+		}
 		a, b, op, ok := kit.CmpAtom(x)
 		if ok && (op == token.EQL || op == token.NEQ) {
 			isUp := func(y ast.Expr) bool {
@@ -543,14 +557,27 @@ func c03Helper(c *kit.Ctx, m *storeModel, hm *hashModel, r4 *kit.Rule) {
 		}
 		return nil, nil, false
 	}
-	res := c.P.Graph(f).Run(kit.NewS().Set("a:sentinel", "F"), st.Client())
-	c.AddValuations(1)
 	badX, badR := "", ""
 	n := 0
-	for _, ex := range res.Exits {
-		if ex.State.Get("it") != "done" || ex.Return == nil || st.ReturnsNil(ex.Return, ex.State) == "nonnil" {
-			continue
+	var allExits []kit.Exit
+	for _, present := range []string{"F", "T"} {
+		res := c.P.Graph(f).Run(kit.NewS().Set("a:sentinel", "F").Set("a:present", present), st.Client())
+		c.AddValuations(1)
+		for _, ex := range res.Exits {
+			if ex.State.Get("it") != "done" || ex.Return == nil || st.ReturnsNil(ex.Return, ex.State) == "nonnil" {
+				continue
+			}
+			// seeding must follow the presence answer
+			switch {
+			case present == "F" && ex.State.Get("seed") == "" && ex.State.Get("x") != "":
+				badX = "an edge met for the first time in this walk is XORed without first being seeded from its stored hash: the stored hash is replaced by the bare delta"
+			case present == "T" && ex.State.Get("seed") == "1":
+				badX = "an edge already in the cache is re-seeded from the stored hash: the delta of the first path through it is lost (diamonds)"
+			}
+			allExits = append(allExits, ex)
 		}
+	}
+	for _, ex := range allExits {
 		n++
 		switch ex.State.Get("x") {
 		case "":
@@ -999,6 +1026,139 @@ func c03Verifier(c *kit.Ctx, m *storeModel, r8 *kit.Rule) {
 			oF.Violation("the repair is not restricted to the compared edge: WHERE %v", st.Where)
 		} else {
 			oF.OK("%s", st.Raw)
+		}
+	}
+}
+
+// c03EntryShape: a propagation entry that updates one edge by id must, on every
+// successful path, put (stored hash XOR delta) for exactly that edge into the
+// cache it writes back, and start the upward walk unless its start is a sentinel.
+func c03EntryShape(c *kit.Ctx, m *storeModel, hm *hashModel, r6 *kit.Rule) {
+	for _, en := range hm.entries {
+		info := en.Info()
+		var sel *kit.SQLSite
+		for _, sx := range m.sql.Sites {
+			if sx.F == en && sx.HasVerb("SELECT", "edges") && len(sx.Stmts) == 1 && len(sx.Stmts[0].Where) == 1 && sx.Stmts[0].Where[0] == "id" {
+				sel = sx
+			}
+		}
+		if sel == nil || len(sel.Args) != 1 {
+			continue // node-point entry: starts the walk at the node, no own edge
+		}
+		o := r6.Ob(en, sel.Call, "own edge entry of "+en.Name, "on every successful path cache[edge id] = stored hash XOR delta, and the walk above the parent is started unless it is a sentinel")
+		var idp, delta, start *types.Var
+		for _, p := range en.Params() {
+			if kit.ObjOf(info, sel.Args[0]) == types.Object(p) {
+				idp = p
+			}
+			if b, ok := p.Type().Underlying().(*types.Basic); ok && b.Kind() == types.Uint32 {
+				delta = p
+			}
+		}
+		var hcall *ast.CallExpr
+		for _, call := range en.AllCalls(false) {
+			if en.CalleeFunc(call) == hm.helper {
+				hcall = call
+			}
+		}
+		if hcall != nil {
+			for i, hp := range hm.helper.Params() {
+				if b, ok := hp.Type().Underlying().(*types.Basic); ok && b.Kind() == types.String && i < len(hcall.Args) {
+					for _, p := range en.Params() {
+						if kit.ObjOf(info, hcall.Args[i]) == types.Object(p) {
+							start = p
+						}
+					}
+				}
+			}
+		}
+		// the scanned hash variable: destination of Scan chained on / following the SELECT
+		var hashVar types.Object
+		ast.Inspect(en.Body, func(n ast.Node) bool {
+			if call, ok := n.(*ast.CallExpr); ok && kit.CallIs(info, call, "database/sql.(*Row).Scan", "database/sql.(*Rows).Scan") && len(call.Args) == 1 {
+				if u, ok := ast.Unparen(call.Args[0]).(*ast.UnaryExpr); ok && u.Op == token.AND {
+					hashVar = kit.ObjOf(info, u.X)
+				}
+			}
+			return true
+		})
+		if idp == nil || delta == nil || start == nil || hashVar == nil || hcall == nil {
+			o.Undecided("roles not found (edge id parameter %v, delta %v, start %v, scanned hash %v, helper call %v)", idp != nil, delta != nil, start != nil, hashVar != nil, hcall != nil)
+			continue
+		}
+		isOwn := func(x ast.Expr) bool {
+			ix, ok := ast.Unparen(x).(*ast.IndexExpr)
+			if !ok || kit.ObjOf(info, ix.Index) != types.Object(idp) {
+				return false
+			}
+			_, isMap := info.TypeOf(ix.X).Underlying().(*types.Map)
+			return isMap
+		}
+		st := &kit.Std{F: en}
+		st.Eval.Atom = func(x ast.Expr) (string, bool, bool) {
+			isStart := func(y ast.Expr) bool { return kit.ObjOf(info, y) == types.Object(start) }
+			isConst := func(y ast.Expr) bool { _, ok := kit.ConstString(info, y); return ok }
+			if neg, ok := eqAtom(x, isStart, isConst); ok {
+				return "sent", neg, true
+			}
+			return "", false, false
+		}
+		st.OnNode = func(n ast.Node, s kit.S) []kit.S {
+			as, ok := n.(*ast.AssignStmt)
+			if !ok || len(as.Lhs) != 1 || !isOwn(as.Lhs[0]) {
+				return []kit.S{s}
+			}
+			rhs := ast.Unparen(as.Rhs[0])
+			switch {
+			case as.Tok == token.ASSIGN:
+				if be, ok := rhs.(*ast.BinaryExpr); ok && be.Op == token.XOR &&
+					((kit.ObjOf(info, be.X) == hashVar && kit.ObjOf(info, be.Y) == types.Object(delta)) || (kit.ObjOf(info, be.Y) == hashVar && kit.ObjOf(info, be.X) == types.Object(delta))) {
+					return []kit.S{s.Set("own", "1")}
+				}
+				if kit.ObjOf(info, rhs) == hashVar {
+					return []kit.S{s.Set("own", "seeded")}
+				}
+				return []kit.S{s.Set("own", "bad")}
+			case as.Tok == token.XOR_ASSIGN && kit.ObjOf(info, rhs) == types.Object(delta):
+				if s.Get("own") == "seeded" {
+					return []kit.S{s.Set("own", "1")}
+				}
+				return []kit.S{s.Set("own", "bad")}
+			}
+			return []kit.S{s.Set("own", "bad")}
+		}
+		st.OnCall = func(call *ast.CallExpr, n ast.Node, s kit.S) []kit.S {
+			if call == hcall {
+				return []kit.S{s.Set("hc", "1")}
+			}
+			return nil
+		}
+		res := c.P.Graph(en).Run(kit.NewS(), st.Client())
+		if res.Overflow {
+			c.Fatalf("R6 entry overflow")
+		}
+		c.AddValuations(1)
+		bad := ""
+		nOK := 0
+		for _, ex := range res.Exits {
+			if ex.Return == nil || st.ReturnsNil(ex.Return, ex.State) == "nonnil" {
+				continue
+			}
+			nOK++
+			if ex.State.Get("own") != "1" {
+				bad = "a successful path leaves the written edge's own hash without (stored hash XOR delta): the edge keeps a stale hash while its ancestors are updated"
+			}
+			if ex.State.Get("hc") != "1" && ex.State.Get("a:sent") != "T" {
+				bad = "a successful path does not start the upward walk for a non-sentinel parent: ancestors keep a stale hash"
+			}
+		}
+		switch {
+		case nOK == 0:
+			o.Undecided("no successful exit")
+		case bad != "":
+			o.Violation("%s", bad)
+		default:
+			o.OK("cache[%s] = %s ^ %s, then the walk from %s", idp.Name(), hashVar.Name(), delta.Name(), start.Name())
 		}
 	}
 }
